@@ -33,30 +33,21 @@ Definition sha256_hkdf_expand := hkdf_expand_impl _ sha256_init sha256_update sh
 Definition sha256_hkdf_extract_spec := hkdf_extract_spec sha256 64 32.
 Definition sha256_hkdf_expand_spec := hkdf_expand_spec sha256 64 32.
 
-(* installing a large block counter (public SM3_CTX fields), then update/finish *)
-Definition sm3_from_state (st : list N) (nblocks : N) (chunks : list (list N)) : list N :=
-  sm3_finish (fold_left sm3_update chunks (mk (list N) st nblocks [])).
-(* the standard's continuation: [st] is the chaining value after [nblocks] blocks *)
-Definition sm3_from_state_spec (st : list N) (nblocks : N) (m : list N) : list N :=
-  let total := (nblocks * 64 + N.of_nat (length m))%N in
-  let p := m ++ [128%N] ++ zeros (padz 64 8 (length m)) ++ len64_spec total in
-  sm3_out (foldn (list N) sm3_compress 64 (length p / 64) st p).
-
-(* Generic "continue from an installed (chaining state, block counter)" for the public
-   context structs of every digest: Impl = the streaming code started from that state,
-   Spec = the standard's padding for a message whose first [nblocks] blocks have
-   already been compressed into [st]. *)
+(* Generic "continue from an installed (chaining state, block counter)" through the
+   public context structs of every digest: Impl = the streaming code started from that
+   state (MD.init with iv := st, n0 := nblocks), Spec = the standard's padding for a
+   message whose first [nblocks] blocks have already been compressed into [st]. *)
 Definition from_state_impl (compress : list N -> list N -> list N) (out : list N -> list N)
     (B LB : nat) (len_impl : N -> nat -> list N) (st : list N) (nblocks : N)
     (chunks : list (list N)) : list N :=
   finish (list N) compress out B LB len_impl
-    (fold_left (update (list N) compress B) chunks (mk (list N) st nblocks [])).
+    (fold_left (update (list N) compress B) chunks (init (list N) st nblocks)).
 Definition from_state_spec (compress : list N -> list N -> list N) (out : list N -> list N)
     (B LB : nat) (len_spec : N -> list N) (st : list N) (nblocks : N) (m : list N) : list N :=
-  let total := (nblocks * N.of_nat B + N.of_nat (length m))%N in
-  let p := m ++ [128%N] ++ zeros (padz B LB (length m)) ++ len_spec total in
-  out (foldn (list N) compress B (length p / B) st p).
+  md_hash (list N) compress out st B LB len_spec nblocks m.
 
+Definition sm3_from_state := from_state_impl sm3_compress sm3_out 64 8 len64_impl.
+Definition sm3_from_state_spec := from_state_spec sm3_compress sm3_out 64 8 len64_spec.
 Definition sha1_from_state := from_state_impl sha1_compress sha256_out 64 8 len64_impl.
 Definition sha1_from_state_spec := from_state_spec sha1_compress sha256_out 64 8 len64_spec.
 Definition sha256_from_state := from_state_impl sha256_compress sha256_out 64 8 len64_impl.
